@@ -15,18 +15,22 @@ for n in $names; do
   [ -f $d/patch.diff ] || continue
   git checkout -q -- . ; git clean -fdq
   demos=$(ls $d/*.rs 2>/dev/null)
-  for f in $demos; do cp $f fastrace/tests/; done
+  # which crate hosts the demo (from the agent's run_demo.sh)
+  pkg="fastrace@0.7.9"; tdir=fastrace/tests
+  grep -q -- "-p fastrace-jaeger" $d/run_demo.sh 2>/dev/null && { pkg=fastrace-jaeger; tdir=fastrace-jaeger/tests; }
+  grep -q -- "-p fastrace-futures" $d/run_demo.sh 2>/dev/null && { pkg=fastrace-futures; tdir=fastrace-futures/tests; }
+  mkdir -p $tdir
+  for f in $demos; do cp $f $tdir/; done
+  [ -f $d/demo_cargo.diff ] && git apply $d/demo_cargo.diff
   feat=""
   grep -q "features enable,verif" $d/run_demo.sh 2>/dev/null && feat="--features enable,verif"
-  tests=""
-  for f in $demos; do tests="$tests --test $(basename $f .rs)"; done
   # only the main demo decides; auxiliary tests (e.g. seeded_simple) may pass either way
   main="--test seeded_demo"
   t0=$(date +%s)
-  timeout 900 cargo test -p fastrace@0.7.9 --offline $feat $main > $d/verify_clean.log 2>&1; rc_clean=$?
+  timeout 900 cargo test -p $pkg --offline $feat $main > $d/verify_clean.log 2>&1; rc_clean=$?
   git apply $d/patch.diff || { echo "$n: patch does not apply"; continue; }
-  timeout 900 cargo test -p fastrace@0.7.9 --offline $feat $main > $d/verify_mutant.log 2>&1; rc_mut=$?
-  rm -f fastrace/tests/seeded_*.rs
+  timeout 900 cargo test -p $pkg --offline $feat $main > $d/verify_mutant.log 2>&1; rc_mut=$?
+  rm -f $tdir/seeded_*.rs; [ -f $d/demo_cargo.diff ] && git apply -R $d/demo_cargo.diff
   timeout 1500 cargo nextest run --workspace --no-fail-fast --offline --test-threads 8 > $d/verify_suite.log 2>&1; rc_suite=$?
   passed=$(grep -o "[0-9]* passed" $d/verify_suite.log | tail -1)
   echo "{\"demo_on_clean_tree_rc\": $rc_clean, \"demo_with_change_rc\": $rc_mut, \"suite_with_change_rc\": $rc_suite, \"suite\": \"$passed\", \"seconds\": $(( $(date +%s) - t0 ))}" > $d/verify.json
